@@ -213,4 +213,19 @@ example :
     [(2680, [some (.number 2680), some (.aes128 7)]), (2681, [some (.number 2681), some (.aes128 7)])] := by
   decide
 
+
+/-! ## recorded finding K7: explicit numbers are slot indices -/
+
+def k7Seg (u : Str) (n : Nat) (ex : Bool) : MediaSegment :=
+  ⟨n, ex, [], none, none, none, false, none, ⟨1000000000, none⟩, u⟩
+
+/-- `media_sequence = 5`, three implicitly numbered segments pushed, then one with the explicit number 3
+(which lands in the free slot 3): `build` succeeds and reports the numbers 5, 6, 7, 3 — for built
+playlists with explicit numbers and a media sequence above 0 the numbering is NOT
+`media_sequence + position` (recorded, not repaired: K7) -/
+theorem k7_counterexample :
+    ((((({ target_duration := some 10000000000, media_sequence := some 5 } : MediaPlaylistBuilder).pushSegment
+      (k7Seg ['a'] 0 false)).pushSegment (k7Seg ['b'] 0 false)).pushSegment (k7Seg ['c'] 0 false)).pushSegment
+      (k7Seg ['d'] 3 true)).build.map (fun p => p.segments.map (·.number)) = .ok [5, 6, 7, 3] := by decide
+
 end Hls.C07
